@@ -14,6 +14,13 @@ from a fresh tee with `n` children over a source producing `items`, whose k-th p
 does or does not die when a pending pull is cancelled.  All are proved by induction over `ops`
 (invariant `Inv` of `Proofs/Tee.lean`).  `Pre lock susp` (Proofs/Tee.lean) is the property's precondition:
 `lock = true ∨ ∀ k ∈ susp, k = 0` — a lock is supplied, or the source never suspends.
+
+`Tee.aclose()` (`Op.closeAll`, `closeAll` of the machine) closes the children in order and — unless a
+busy child aborts it — then unregisters every buffer that is still registered (children closed before
+their first step never ran their `finally`) and closes the source on their behalf
+(`C09_tee_aclose_unregisters_all`).  A child closed INDIVIDUALLY before its first step still keeps its
+buffer registered (`C09_closed_before_first_step_counterexample`); this is why the two `_partial`
+theorems keep the hypothesis `NoEarlyClose`.
 -/
 namespace AsyncVerif.Tee
 
@@ -124,9 +131,12 @@ theorem C09_retention (items n susp lock closeable dies ops) (j : Nat) (hj : j <
   exact List.drop_suffix _ _
 
 /-- **Children closed early stop buffering — partial.** Provided no child is closed before its
-    first step (`NoEarlyClose`), every child that has finished, been closed or whose consumer was
-    cancelled inside it has had its buffer removed: the registered buffers are exactly those of
-    the live children, so `C09_retention` speaks about the slowest *live* child.
+    first step and left registered (`NoEarlyClose`: no `child.aclose()` of a child that was never
+    advanced, and no `Tee.aclose()` that is aborted by a busy child while some child was never
+    advanced — a `Tee.aclose()` that goes over all children is allowed, it unregisters everything
+    itself), every child that has finished, been closed or whose consumer was cancelled inside it
+    has had its buffer removed: the registered buffers are exactly those of the live children, so
+    `C09_retention` speaks about the slowest *live* child.
     (False without the hypothesis: `C09_closed_before_first_step_counterexample`.) -/
 theorem C09_closed_stop_buffering_partial (items n susp lock closeable dies ops)
     (hne : NoEarlyClose (init items n susp lock closeable dies) ops) (j : Nat) (hj : j < n) :
@@ -140,7 +150,8 @@ theorem C09_closed_stop_buffering_partial (items n susp lock closeable dies ops)
     (reach_inv items n susp lock closeable dies ops).buf_ne_none j hj'⟩
 
 /-- **Retention w.r.t. the slowest live child — partial.** Provided no child is closed before its
-    first step: once every live child (not finished, not closed, its consumer not cancelled inside
+    first step and left registered (`NoEarlyClose`, see `C09_closed_stop_buffering_partial`): once
+    every live child (not finished, not closed, its consumer not cancelled inside
     it) has yielded the first `k` fetched items, none of those `k` items is held in any buffer.
     (False without the hypothesis: `C09_closed_before_first_step_counterexample`.) -/
 theorem C09_retention_live_partial (items n susp lock closeable dies ops)
@@ -156,15 +167,57 @@ theorem C09_retention_live_partial (items n susp lock closeable dies ops)
   intro hd
   exact hreg ((C09_closed_stop_buffering_partial items n susp lock closeable dies ops hne j' hj').1 hd)
 
-/-- The code as it is: a child closed before its first step never runs its `finally` block, so
-    its buffer stays registered and is fed for ever — after the other child has consumed the whole
-    source, the closed child's buffer still holds all three items. -/
+/-- The code as it is: a child closed individually (`child.aclose()`) before its first step never
+    runs its `finally` block, so its buffer stays registered and is fed for ever — after the other
+    child has consumed the whole source, the closed child's buffer still holds all three items and
+    the source has not been closed.  (Only a later `Tee.aclose()` cleans this up:
+    `C09_tee_aclose_unregisters_all`.) -/
 theorem C09_closed_before_first_step_counterexample :
     let s := reach [1, 2, 3] 2 [] true true true
       [.close 0, .sched 1, .sched 1, .sched 1, .sched 1, .sched 0]
     (s.kid 0).pc = .done ∧ (s.kid 0).buf = some [1, 2, 3] ∧ (s.kid 1).task = .ended ∧
       (s.kid 1).out = [1, 2, 3] ∧ s.srcCloses = 0 := by
   decide
+
+/-- **`Tee.aclose()` unregisters everything.** In every reachable state, a `Tee.aclose()` that is
+    not aborted by a busy child (a child whose `__anext__` is pending makes `child.aclose()` raise
+    RuntimeError) leaves every child closed and no buffer registered — also the buffers of children
+    that were closed, by it or earlier, before their first step — and, if the source can be closed
+    and the tee has at least one child, the source has been closed.  (With `n = 0` there is no
+    buffer and nothing closes the source: `if self._buffers:` is false.) -/
+theorem C09_tee_aclose_unregisters_all (items n susp lock closeable dies ops)
+    (hb : (step (reach items n susp lock closeable dies ops) .closeAll).2 ≠ .busy) :
+    (∀ j, j < n →
+      ((step (reach items n susp lock closeable dies ops) .closeAll).1.kid j).buf = none ∧
+      ((step (reach items n susp lock closeable dies ops) .closeAll).1.kid j).pc = .done) ∧
+    (closeable = true → 0 < n →
+      0 < (step (reach items n susp lock closeable dies ops) .closeAll).1.srcCloses) := by
+  have hlen := reach_len items n susp lock closeable dies ops
+  have hcl := (reach_closedLast items n susp lock closeable dies ops).step_ok .closeAll
+  have hc := reach_closeable items n susp lock closeable dies ops
+  simp only [step] at hb hcl ⊢
+  have hnb : (closeFrom (reach items n susp lock closeable dies ops)
+      (List.range (reach items n susp lock closeable dies ops).kids.length)).2 ≠ .busy :=
+    fun e => hb ((closeAll_out_busy _).2 e)
+  have hdone := closeFrom_pc_done _ _ (range_lt (reach items n susp lock closeable dies ops)) hnb
+  have hall : ∀ j, j < n →
+      ((closeAll (reach items n susp lock closeable dies ops)).1.kid j).buf = none ∧
+      ((closeAll (reach items n susp lock closeable dies ops)).1.kid j).pc = .done := by
+    intro j hj
+    rw [closeAll_not_busy _ hnb]
+    have hj' : j < (closeFrom (reach items n susp lock closeable dies ops)
+        (List.range (reach items n susp lock closeable dies ops).kids.length)).1.kids.length := by
+      rw [closeFrom_length, hlen]; exact hj
+    rw [clearBuffers_kid _ j hj']
+    exact ⟨rfl, hdone j (by simpa [hlen] using hj)⟩
+  refine ⟨hall, fun hcl' hn => ?_⟩
+  refine hcl ?_ (by rw [closeAll_length, hlen]; exact hn) ?_
+  · have := cfg_closeAll (reach items n susp lock closeable dies ops)
+    simp only [St.cfg, Prod.mk.injEq] at this
+    rw [this.2.2, hc]; exact hcl'
+  · intro j hj
+    rw [closeAll_length, hlen] at hj
+    exact (hall j hj).1
 
 /-- **Mutual exclusion.** With a lock, at most one child is inside `iterator.__anext__()` at any
     time, and it is the lock holder; under the precondition no pull of the source was ever started
@@ -230,8 +283,9 @@ theorem C09_no_index_error (items n susp lock closeable dies ops) (op : Op) :
     (step (reach items n susp lock closeable dies ops) op).2 ≠ .error :=
   (reach_inv items n susp lock closeable dies ops).step_noerr op
 
-/-- **The source is closed only by the last child**: once the tee has called `iterator.aclose()`,
-    no buffer is registered any more, so no remaining child can be cut off by it. -/
+/-- **The source is closed only by the last child** (or by `Tee.aclose()` after it has closed
+    every child): once the tee has called `iterator.aclose()`, no buffer is registered any more, so
+    no remaining child can be cut off by it. -/
 theorem C09_source_closed_last (items n susp lock closeable dies ops)
     (hc : 0 < (reach items n susp lock closeable dies ops).srcCloses) (j : Nat) (hj : j < n) :
     ((reach items n susp lock closeable dies ops).kid j).buf = none :=
@@ -281,6 +335,26 @@ example : ((reach [1, 2, 3] 3 [1, 1, 1, 1] true true false opsB).kid 2).task = .
 example : (reach [1, 2, 3] 2 [1] true true true [.sched 0, .sched 1]).holder = some 0 := by decide
 /-- the source gets closed (hypothesis of `C09_source_closed_last`) -/
 example : 0 < (reach [1] 2 [] false true true [.sched 0, .sched 1, .sched 0, .sched 1]).srcCloses := by
+  decide
+/-- `Tee.aclose()` after a child was closed before its first step (and with another child that was
+    never advanced): not busy, so the hypothesis of `C09_tee_aclose_unregisters_all` holds; the buffer
+    that `child.aclose()` left registered is gone and the source is closed.  Such a `Tee.aclose()` is
+    no "early close" (`NoEarlyClose` holds for a sequence that contains it) -/
+example :
+    let s := reach [1, 2, 3] 3 [] true true true [.close 0, .sched 1, .sched 1]
+    (s.kid 0).buf = some [1, 2] ∧ s.srcCloses = 0 ∧ (step s .closeAll).2 = .closed ∧
+      ((step s .closeAll).1.kid 0).buf = none ∧ ((step s .closeAll).1.kid 2).buf = none ∧
+      (step s .closeAll).1.srcCloses = 1 := by
+  decide
+example : NoEarlyClose (init [1, 2, 3] 3 [] true true true) [.sched 1, .sched 1, .closeAll, .sched 0] := by
+  decide
+/-- a `Tee.aclose()` that is aborted by a busy child leaves the buffer of the never-started child it
+    closed before registered (the excluded case of `NoEarlyClose`) -/
+example :
+    let s := reach [1, 2, 3] 2 [1] true true true [.sched 1]
+    (step s .closeAll).2 = .busy ∧ ((step s .closeAll).1.kid 0).pc = .done ∧
+      ((step s .closeAll).1.kid 0).buf = some [] ∧
+      ¬ NoEarlyClose (init [1, 2, 3] 2 [1] true true true) [.sched 1, .closeAll] := by
   decide
 
 end AsyncVerif.Tee
